@@ -13,8 +13,17 @@ CFGS = [dict(noise=False, login=False), dict(noise=True, login=False), dict(nois
 
 def run_family(ctx, name: str, cases: list) -> dict:
     logging.disable(logging.CRITICAL)
-    traces = [clientsim.run_schedule(cfg, sch, seed=ctx.seed * 7919 + i) for i, (cfg, sch) in enumerate(cases)]
-    findings = []
+    from vf import watchdog
+
+    traces, findings, kept = [], [], []
+    for i, (cfg, sch) in enumerate(cases):
+        try:
+            with watchdog.limit(90, "schedule"):
+                traces.append(clientsim.run_schedule(cfg, sch, seed=ctx.seed * 7919 + i))
+            kept.append((cfg, sch))
+        except watchdog.Hang:
+            findings.append({"fields": ["hang"], "cause": "hang", "cfg": cfg, "schedule": sch, "line": 0, "rows": []})
+    cases = kept
     gaps = sorted({g for t in traces for g in t["gaps"]})
     from vf import tracecheck
 
